@@ -2550,8 +2550,13 @@ expand_manifest(const CPPManifest *manifest, const YYLTYPE &loc) {
 
   if (manifest->_has_parameters) {
     // Hmm, we're expecting arguments.
-    extract_manifest_args(manifest->_name, manifest->_num_parameters,
-                          manifest->_variadic_param, args);
+    if (!extract_manifest_args(manifest->_name, manifest->_num_parameters,
+                               manifest->_variadic_param, args)) {
+      // The input ended inside the argument list.  Don't expand: the
+      // expansion may invoke the same manifest again, without end.
+      error("unterminated argument list invoking manifest " + manifest->_name, loc);
+      return internal_get_next_token();
+    }
   }
 
   // Keep track of the manifests we're supposed to ignore.
@@ -2578,9 +2583,10 @@ expand_manifest(const CPPManifest *manifest, const YYLTYPE &loc) {
 }
 
 /**
- *
+ * Returns false if the end of the input was reached before the closing
+ * parenthesis of the argument list.
  */
-void CPPPreprocessor::
+bool CPPPreprocessor::
 extract_manifest_args(const string &name, int num_args, int va_arg,
                       vector_string &args) {
   CPPFile first_file = get_file();
@@ -2671,6 +2677,9 @@ extract_manifest_args(const string &name, int num_args, int va_arg,
         c = get();
       }
     }
+    if (c == EOF) {
+      return false;
+    }
     if (num_args != 0 || !arg.empty()) {
       args.push_back(trim_blanks(arg));
     }
@@ -2689,6 +2698,7 @@ extract_manifest_args(const string &name, int num_args, int va_arg,
   } else if (va_arg < 0 && (int)args.size() > num_args) {
     warning("Too many arguments for manifest " + name, loc);
   }
+  return true;
 }
 
 /**
